@@ -83,8 +83,10 @@ theorem parse_fields {b : Bytes} (h : WF b) {p : Parsed} (hp : parse b (factsOf 
   have e1 : (factsOf b).soh = (layout b).soh := rfl
   have e2 : (factsOf b).ddSize = certSize b := rfl
   have e4 : (layout b).soh + ((layout b).hashed.map (·.2)).sum = (layout b).sum := rfl
-  rw [e1, e2, e4] at hp
-  rw [if_neg (by omega), if_neg (by omega), if_neg (by omega)] at hp
+  have e8 : (factsOf b).ddVA = certAddr b := rfl
+  rw [e1, e2, e4, e8] at hp
+  have hal := h.aligned
+  rw [if_neg (by omega), if_neg (by omega), if_neg (by omega), if_neg (by omega)] at hp
   have e5 : (layout b).sum + (b.length - (layout b).sum) = b.length := by omega
   have e6 : (layout b).sum + (b.length - (layout b).sum - certSize b) = b.length - certSize b := by omega
   rw [e5, e6] at hp
